@@ -343,7 +343,10 @@ fn check_node(n: &J, hints: Option<&Hints>, all_rules: &[(String, St)], acc: &mu
         }
         "GuardClauseBlockCheck" => {
             let some = v["at_least_one_matches"].as_bool().unwrap_or(false);
-            let vals: Vec<St> = children.iter().filter(|c| ck(c) == "ClauseValueCheck").map(cst).collect();
+            // the clause's own value checks carry the clause text as context; value checks recorded
+            // while the query was evaluated (map-key filters) carry another context
+            let own = ctx.strip_prefix("GuardAccessClause#block").unwrap_or(ctx);
+            let vals: Vec<St> = children.iter().filter(|c| ck(c) == "ClauseValueCheck" && c["context"].as_str() == Some(own)).map(cst).collect();
             note(&vals);
             if vals.is_empty() {
                 // nothing to explain the status with: an empty selection (SKIP) or a comparison
